@@ -15,7 +15,7 @@ NOTES = {
     'C02': 'spec encoders with explicit choice vectors for PBF (field order, dense/plain, granularity, offsets, date granularity, unknown fields, indexdata, table layout, block splitting), o5m (inline vs back-reference per pair, table wrap-around, resets, unknown/sync/jump datasets, o5c) and OPL/XML renderers (attribute order, separators, escape styles, quoting, entity vs char-ref, line endings); files read by the real Reader and by the model decoders. Proved at full strength: pbf_decode_spec, o5m_table_ring + o5m_decode_spec, opl_decode_spec, xml_decode_spec (reader half for any XML-1.0-conformant event source + lexical half for the model tokenizer), field-order/unknown-field/any-rank lemmas, any BlobHeader size ≤ 64 KiB.',
     'C03': 'partial by design (compiled-code memory safety is established by sanitizer runs, not proved). 60 theorems over the layout/decoder/parser models, which follow the repaired source: (pbf) decoder total; every string handed to a builder is a NUL-free table entry of at most 1024 bytes; pbf_decoded_objects_guards / pbf_decoded_objects_wf: every object decoded from ANY byte string passes all builder guards and is traversed completely in bounds (premise item < 4 GiB, which the real code now enforces: fix 2935e9f was found by trying to discharge it); (xml) reader total over all expat event sequences, xml_reader_keeps_builder_protocol (no add_comment while one is pending, no text without a comment, no null builder), user names <= 1024; (opl/text) timestamp, coordinate, integer, string and escape parsers stop at the terminating NUL, next_utf8_codepoint never reads beyond it; (layout) wf_traverse_in_bounds, builders_traverse_complete, builders_produce_wf_partial (the builders themselves check neither NUL in tag strings nor a text-less comment in the middle of a discussion - no reader commits either); (o5m) decoder never reads at/after the dataset end or outside a table slot, no UB. Tie: real Reader under ASan+UBSan in NDEBUG and assertion builds with a watchdog on prefixes, byte mutations and model-driven structure mutations of valid files in four formats, guarded walk of every delivered buffer, outcome class equal to the models; builder scripts byte-exact against HostileLayout.build; regression probes with stable keys for every repaired defect; >4 GiB item probe on a sanitizer-free build.',
     'C04': "Model/Layout + Model/Buf (epochs model reallocation; raw pointers kept across calls become (epoch, offset); builder calls are micro programs whose only throwing step is reserve_space); 33 theorems, none _partial: capacity_independent for all scripts/capacities/modes yes|internal; buf_inv_bounds and buf_inv_aligned in EVERY reachable state (inductive invariant open_builders_sizes_congruent), destructors_never_throw, misaligned_only_inside_unaligned_list; purge_spec; stale-pointer theorems for the repaired ChangesetDiscussionBuilder (model follows 5690f83: pending comment finished in the destructor); built_bytes / built_bytes_sequence: the script of builder calls for an object commits exactly HostileLayout.build (bridge to C03's one-shot layout model), built_content: under the builders' Guards the committed bytes are Layout.WF and decode to what was passed in; set_field laws. Mode `no` for built_content and tree-level push_back/add_buffer content are monitored, not proved.",
-    'C05': 'Model/Pipeline (read thread, parser thread with ParserWithBuffer nesting / PBF blob futures fulfilled by arbitrary workers, consumer with status machine and m_back_buffers; both queues are QueueSM machines of C19); queue_of_futures_order invariant, exactly_once_in_order at full strength for every well-formed configuration, schedule/pool-size independence, nested unwinding order, mask = filtered subsequence, read_after_eof_fails; tie = trace validation of real runs (scheduling validator finds an interleaving of the model consistent with the hook trace) + object-sequence monitor against the single-threaded decode over pool sizes, queue sizes, masks, buffers_type, four formats. Hypothesis blobFault = none on the equation theorems.',
+    'C05': 'Model/Pipeline (read thread, parser thread with ParserWithBuffer nesting / PBF blob futures fulfilled by arbitrary workers, consumer with status machine and m_back_buffers; both queues are QueueSM machines of C19); 27 theorems, all WITHOUT a fault hypothesis since round 2: queue_of_futures_order against specAt (= deliver until the parser has passed a blob whose decode throws in a worker, deliverSkipping afterwards), order_in_every_state (also after shutdown, via the unpopped futures), delivered_is_prefix_any_fault (no hypothesis at all), delivered_before_fault (prefix of the objects before the faulty blob), exactly_once_in_order for every well-formed configuration, schedule/pool-size independence, faulty_blob_delivers_prefix_then_error, nested unwinding, mask = filtered subsequence, read_after_eof_fails; direct_* versions for a PBF file read through the fd (simulation). Tie = trace validation of real runs (scheduling validator finds an interleaving of the model consistent with the hook trace) + object-sequence monitor against the single-threaded decode over pool sizes, queue sizes, masks, buffers_type, four formats, blocks whose first object exceeds the initial buffer, undecodable first/middle/last blobs.',
     'C06': 'Model/Wire + Chunks + PbfFraming; theorems for all chunkings (OPL lines, PBF framing, o5m window + dataset loop, XML feed); harness drives the real line_by_line, PBFParser framing functions and O5mParser::ensure_bytes_available (-fno-access-control) and monitors the whole Reader behind a mock decompressor; o5m model = code after fix 4708c02.',
     'C07': 'same Pipeline machine with faults (j-th decompressor read, close, parser before/after header, blob decode in a worker) and an arbitrary client; 25 theorems: header_fulfilled_once, first_error_reported, fault_is_on_its_way, no_data_after_error, closed_reader_reads_nothing_more, no_stuck_state at FULL strength (the six wait-for invariants are now proved for all reachable states), bounded_progress (ranking function), api_call_returns_or_spins, busy_wait_never_forced, api_call_returns_thread_fair (every API call returns under per-thread weak fairness of the scheduler - the only remaining assumption), destructor_joins_all; fd/thread leaks observed by monitors (/proc/self/task, /proc/self/fd) under a 20 s watchdog for every stop point x fault point x queue/pool size; the PBF-file path that reads the fd directly is covered by the monitors only.',
     'C08': 'Model/WriterSM: OS fault oracle, reliable_write, compressor wrappers over library contracts (GzSpec, BzSpec), writer/pool/write-thread small-step machine; harness interposes write/fsync/close (fopencookie bridge for stdio) and injects faults at every offset.',
